@@ -377,6 +377,22 @@ func (e *Engine) vrtIntrinsic(fn *ssa.Function, vn string, args []Value, st *Sta
 		return sEach(t, func(c *Term) *Term {
 			return Or(byteRange(c, 'a', 'z'), byteRange(c, 'A', 'Z'), byteRange(c, '0', '9'), Eq(c, BVC(8, '.')), Eq(c, BVC(8, '_')))
 		}), true
+	case "Path":
+		t := args[0].(*Term)
+		return sEach(t, func(c *Term) *Term {
+			return Or(byteRange(c, 'a', 'z'), byteRange(c, 'A', 'Z'), byteRange(c, '0', '9'), Eq(c, BVC(8, '_')), Eq(c, BVC(8, '/')), Eq(c, BVC(8, '-')))
+		}), true
+	case "Emitted":
+		return StrC("@emitted"), true
+	case "Count":
+		marker := constStr(args[1], "vrtCount marker")
+		total := BVC(64, 0)
+		for _, ev := range e.events {
+			if ev.Name == marker {
+				total = BVBin("+", total, Ite(ev.G, BVC(64, 1), BVC(64, 0)), true)
+			}
+		}
+		return total, true
 	case "ConfigFile":
 		// the environment holds one configuration file: unreadable, unparsable, or listing one type
 		p := e.freshStr(st, "cfgpath", 6)
